@@ -27,7 +27,7 @@ def _describe(tier):
                 % (hi, '' if tier == 'quick' else ' and 1000, 4095, 4096, 4097, 65535, 65536'),
         'bounds': 'message lengths 0..%d exhaustive' % hi,
         'assumptions': ['wrong-key rejection is decided for DRBG keys only (chance equality 2^-128)'],
-        'must_be_nonzero': ['roundtrip', 'block-multiple-message', 'empty-message', 'declared-mismatch-refused', 'wrong-key-length-refused', 'long-runs', 'wrong-key-runs'],
+        'must_be_nonzero': ['roundtrip', 'block-multiple-message', 'empty-message', 'declared-mismatch-refused', 'wrong-key-length-refused', 'long-runs', 'wrong-key-runs', 'forked-worker-ciphertexts-compared'],
     }
 
 
